@@ -52,6 +52,19 @@ Proof.
 Qed.
 Print Assumptions react_graph_refines_spec.
 
+(* strict alternation at the level of the engine's supersteps: every superstep executes exactly
+   one node, the first one chat; after chat only tools (or the end of the run), after tools only
+   chat or - with a return-directly set - direct_return, after which the run ends.  [chain_ok k ks]:
+   ks starts with k and every node is followed by one that [follows] it *)
+Theorem supersteps_alternate :
+  forall tn rd rd_nonempty modifier visible checker md max_step script input,
+  exists ks,
+    engine_supersteps tn rd rd_nonempty modifier visible checker md max_step script input
+    = [] :: map (fun k => [k]) ks
+    /\ chain_ok rd_nonempty kChat ks.
+Proof. exact engine_supersteps_alternate. Qed.
+Print Assumptions supersteps_alternate.
+
 (* Generate needs no hypothesis beyond the checker being exact on a whole message ... *)
 Theorem react_generate_refines_spec :
   forall tn rd rd_nonempty modifier visible checker script max_steps input,
